@@ -72,12 +72,9 @@ def pureRows (w : Worker) (c : Content) : List (Label × Row) → Except Err (Li
       | .error e => .error e
       | .ok ps => .ok ((lr.1, p) :: ps)
 
-def placeFrom (n : Nat) : List (Label × Pickled) → List (Label × Sim)
-  | [] => []
-  | lp :: rest => (lp.1, { cell := n, segs := lp.2.segs, nan := lp.2.nan }) :: placeFrom (n + 1) rest
-
-def placeAll (h : Heap) (ps : List (Label × Pickled)) : Heap × List (Label × Sim) :=
-  (h ++ ps.map (·.2.content), placeFrom h.length ps)
+/-- re-checked against the source on every run: `_update_parameters_and_initial_conditions` starts with
+    `model = deepcopy(model)` -/
+theorem shippedCopyFirst_eq : shippedCopyFirst = true := by decide
 
 theorem seqScan_char (w : Worker) (c : Content) (cell : Nat) :
     ∀ (rows : List (Label × Row)) (h : Heap), h.read cell = .ok c →
@@ -91,6 +88,7 @@ theorem seqScan_char (w : Worker) (c : Content) (cell : Nat) :
   | cons lr rest ih =>
     intro h hc
     unfold seqScan at ih ⊢
+    rw [shippedCopyFirst_eq] at ih ⊢
     unfold seqScanWith pureRows
     rw [rowTask_copy w h cell lr.2 c hc]
     cases rowPure w c lr.2 with
@@ -714,10 +712,10 @@ theorem ssFinish_spec (cfg : EulerCfg) (c c' : Content) (prev last : Rat × List
     rw [← h.2] at hsegs
     cases hsegs
 
-theorem ssRun_spec (cfg : EulerCfg) (c c' : Content) (r : Option (List Seg))
-    (h : ssRun cfg c = .ok (c', r)) :
+theorem ssRunCore_spec (cfg : EulerCfg) (c c' : Content) (r : Option (List Seg))
+    (h : ssRunCore cfg c = .ok (c', r)) :
     c' = c ∧ ∀ segs, r = some segs → ∃ p last, snapshot c = .ok p ∧ segs = [{ rows := [last], pars := p }] := by
-  unfold ssRun at h
+  unfold ssRunCore at h
   obtain ⟨ig, _, h⟩ := exc_bind_ok h
   by_cases hf : ig.fail = true
   · simp only [hf, if_true, pure, Except.pure, Except.ok.injEq, Prod.mk.injEq] at h
@@ -733,6 +731,17 @@ theorem ssRun_spec (cfg : EulerCfg) (c c' : Content) (r : Option (List Seg))
     intro segs hs
     obtain ⟨p, hp, hseg⟩ := h2 segs hs
     exact ⟨p, last, hp, hseg⟩
+
+theorem ssRun_spec (cfg : EulerCfg) (c c' : Content) (r : Option (List Seg))
+    (h : ssRun cfg c = .ok (c', r)) :
+    c' = c ∧ ∀ segs, r = some segs → ∃ p last, snapshot c = .ok p ∧ segs = [{ rows := [last], pars := p }] := by
+  unfold ssRun at h
+  split at h
+  · cases h
+  · split at h
+    · cases h
+    · cases h
+    · exact ssRunCore_spec cfg c c' r h
 
 theorem ssRun_shape (cfg : EulerCfg) (c c' : Content) (segs : List Seg)
     (h : ssRun cfg c = .ok (c', some segs)) :
